@@ -308,17 +308,19 @@ func (c *migCase) namesID(id string) bool {
 	return false
 }
 
-// exceptsCategory: input shape "a v1beta1 configuration excepts a whole category" - the shape whose
-// translation can leave no rule (or silently drop one), because categories differ between v1beta1 and v2.
+// exceptsCategory: input shape "a v1 / v1beta1 configuration excepts a whole category" - the shape
+// whose translation can leave no rule (or silently drop one), because the members of a category differ
+// between the old version and v2 (e.g. FILE_SAME_PACKAGE and PACKAGE/WIRE/WIRE_JSON of v1beta1,
+// PACKAGE_NO_IMPORT_CYCLE and MINIMAL/BASIC/STANDARD of v1).
 func (c *migCase) exceptsCategory() bool {
 	versions, cfgs := c.migCheckConfigs()
 	for i, cfg := range cfgs {
-		if versions[i] != "v1beta1" || cfg.Disabled() {
+		if cfg.Disabled() || migTables[versions[i]] == nil {
 			continue
 		}
 		for _, x := range cfg.ExceptIDsAndCategories() {
 			for _, kind := range []string{"lint", "breaking"} {
-				if _, ok := migTables["v1beta1"][kind].catRules[x]; ok {
+				if _, ok := migTables[versions[i]][kind].catRules[x]; ok {
 					return true
 				}
 			}
